@@ -14,6 +14,7 @@ func (c *Conversation) akeHasFinished() error {
 	c.keys = c.ake.keys
 	if c.msgState == encrypted {
 		c.ssid = c.ake.ssid
+		c.sentRevealSig = c.ake.sentRevealSig
 	}
 	c.ake.wipe(false)
 
@@ -186,7 +187,11 @@ func (s authStateAwaitingDHKey) receiveDHKeyMessage(c *Conversation, msg []byte)
 	c.ake.keys.setTheirCurrentDHPubKey(c.ake.theirPublicValue)
 	c.ake.keys.setOurCurrentDHKeys(c.ake.secretExponent, c.ake.ourPublicValue)
 
-	c.sentRevealSig = true
+	c.ake.sentRevealSig = true
+	if c.msgState != encrypted {
+		// an established session keeps its role until the new exchange has completed
+		c.sentRevealSig = true
+	}
 
 	return authStateAwaitingSig{revealSigMsg: revealSigMsg}, revealSigMsg, nil
 }
@@ -229,6 +234,7 @@ func (s authStateAwaitingRevealSig) receiveRevealSigMessage(c *Conversation, msg
 	c.ake.keys.setTheirCurrentDHPubKey(c.ake.theirPublicValue)
 	c.ake.keys.setOurCurrentDHKeys(c.ake.secretExponent, c.ake.ourPublicValue)
 
+	c.ake.sentRevealSig = false
 	c.sentRevealSig = false
 
 	return authStateNone{}, sigMsg, c.akeHasFinished()
